@@ -33,4 +33,4 @@ def run(ctx):
                 s["calls"] = [dict(c) for c in b["calls"]]
                 out.append(s)
                 k += 1
-    C01.run_family(ctx, out, 100 if quick else 2000, "C04")
+    C01.run_family(ctx, out, 300 if quick else 10000, "C04")
